@@ -53,8 +53,12 @@ type gcIter struct {
 
 type gcRun struct {
 	fid    uint32
-	parked chan struct{}
-	resume chan struct{}
+	// scan seam: the rewrite parks before examining record at+1 (mid closed), until resumeMid
+	mid       chan struct{}
+	resumeMid chan struct{}
+	inScan    bool
+	parked    chan struct{}
+	resume    chan struct{}
 	done   chan error
 	pre    []readSnap
 	before badger.VVlogState
@@ -335,7 +339,6 @@ func (s *gcSess) noteWriteBacks(fid uint32, gcTs uint64, done bool) {
 	if err != nil {
 		return
 	}
-	s.curSel = map[string]bool{}
 	for _, r := range recs {
 		e, ok, err := badger.VerifGetAtPtr(s.db, r.Key, r.Version)
 		if err != nil || !ok || e.Version != r.Version || !e.IsPtr || e.Fid != fid || e.Offset != r.Offset {
@@ -389,9 +392,19 @@ func (s *gcSess) totalRecs() int {
 
 // startRun starts doRunGC(fid) in a goroutine and waits until it is parked after its scan (true)
 // or has returned (false, error kind).
-func (s *gcSess) startRun(fid uint32) (bool, string) {
+// at >= 0: park inside the scan after `at` records have been examined (when there are more).
+func (s *gcSess) startRun(fid uint32, at int) (bool, string) {
 	s.refreshIdx()
-	run := &gcRun{fid: fid, parked: make(chan struct{}), resume: make(chan struct{}), done: make(chan error, 1)}
+	run := &gcRun{fid: fid, parked: make(chan struct{}), resume: make(chan struct{}), done: make(chan error, 1),
+		mid: make(chan struct{}), resumeMid: make(chan struct{})}
+	if at >= 0 {
+		badger.VerifSetGCScanHook(func(_ *badger.DB, n int) {
+			if n == at+1 {
+				close(run.mid)
+				<-run.resumeMid
+			}
+		})
+	}
 	run.pre = s.snapshotReads()
 	run.before = badger.VerifVlogState(s.db)
 	run.nrec = s.totalRecs()
@@ -401,17 +414,45 @@ func (s *gcSess) startRun(fid uint32) (bool, string) {
 	})
 	go func() { run.done <- badger.VerifGCRewrite(s.db, fid) }()
 	select {
+	case <-run.mid:
+		run.inScan = true
+		s.run = run
+		return true, fmt.Sprintf("parked scanned=%d", at)
 	case <-run.parked:
+		badger.VerifSetGCScanHook(nil)
 		s.run = run
 		return true, "parked"
 	case err := <-run.done:
+		badger.VerifSetGCScanHook(nil)
 		badger.VerifSetGCPauseHook(s.db, nil)
+		return false, gcErrKind(err)
+	}
+}
+
+// contRun lets a rewrite parked inside its scan finish the scan; it parks again before the
+// write-back (true) or returns (false, error kind).
+func (s *gcSess) contRun() (bool, string) {
+	run := s.run
+	run.inScan = false
+	badger.VerifSetGCScanHook(nil)
+	close(run.resumeMid)
+	select {
+	case <-run.parked:
+		return true, "parked"
+	case err := <-run.done:
+		badger.VerifSetGCPauseHook(s.db, nil)
+		s.run = nil
 		return false, gcErrKind(err)
 	}
 }
 
 // finishRun resumes the parked rewrite; returns its output line.
 func (s *gcSess) finishRun() string {
+	if s.run.inScan {
+		if ok, out := s.contRun(); !ok {
+			return out
+		}
+	}
 	run := s.run
 	s.run = nil
 	run.nrec = s.totalRecs()
@@ -817,14 +858,46 @@ func execGc(intents []string, st *Stats) (final, outs, oracle []string) {
 				fid = el[n%len(el)]
 				line = fmt.Sprintf("gcbegin fid=%d sel=%s", fid, sel)
 			}
-			parked, out := s.startRun(fid)
+			at := -1
+			if a, ok := kvl["at"]; ok {
+				at, _ = strconv.Atoi(a)
+				if !strings.Contains(line, " at=") {
+					line += " at=" + a
+				}
+			}
+			parked, out := s.startRun(fid, at)
 			emit(line, out)
 			s.inGc = parked
 			if parked {
 				_, gcTs := badger.VerifGcClamp(s.db)
+				if gcTs == 0 {
+					gcTs = s.db.MaxVersion()
+				}
+				s.curSel = map[string]bool{}
 				s.noteWriteBacks(fid, gcTs, false)
 				s.judgeReads(fmt.Sprintf("the GC scan of file %d", fid), s.run.pre, fail)
 				st.Inc("gc:parked")
+			}
+		case "gccont":
+			if s.run == nil {
+				emit(line, "norun")
+				continue
+			}
+			if !s.run.inScan {
+				emit(line, "noscan")
+				continue
+			}
+			fid := s.run.fid
+			pre := s.snapshotReads()
+			parked, out := s.contRun()
+			emit(line, out)
+			if parked {
+				_, gcTs := badger.VerifGcClamp(s.db)
+				s.noteWriteBacks(fid, gcTs, false)
+				s.judgeReads(fmt.Sprintf("the rest of the GC scan of file %d", fid), pre, fail)
+				st.Inc("gc:cont")
+			} else {
+				s.inGc = false
 			}
 		case "gcend":
 			if s.run == nil {
@@ -1112,8 +1185,15 @@ func genGcSession(rng *rand.Rand, st *Stats) []string {
 			}
 		case r < 97:
 			if !parked {
-				ops = append(ops, fmt.Sprintf("gcbegin sel=%d", rng.Intn(8)))
+				o := fmt.Sprintf("gcbegin sel=%d", rng.Intn(8))
+				if rng.Intn(2) == 0 {
+					// park inside the scan
+					o += fmt.Sprintf(" at=%d", rng.Intn(4))
+				}
+				ops = append(ops, o)
 				parked = true
+			} else if rng.Intn(3) == 0 {
+				ops = append(ops, "gccont")
 			} else {
 				ops = append(ops, "gcend")
 				parked = false
